@@ -338,7 +338,8 @@ class Player:
             else:
                 sseed = self.rng.randrange(1 << 30); self.detail["sched_seed_call_%d" % (ci + 1)] = sseed
                 o, _ = vmp.run_scheduled(go, vsched.random_policy(random.Random(sseed)))
-                if o["verdict"] != "ok": out, val = "hang", o["verdict"]
+                if o["verdict"] != "ok" and hook.struck: out, val = "killed", None      # the kill was delivered: the process is gone; what its in-process stand-in does afterwards (the multiprocessor's clean-up waiting for workers) is not behaviour under a kill
+                elif o["verdict"] != "ok": out, val = "hang", o["verdict"]
                 elif "error" in o: out, val = "raise:%s" % type(o["error"]).__name__, o["error"]
                 else: out, val = o["value"]
         finally:
